@@ -734,6 +734,19 @@ def p_size_children(ctx):
     add_payload(ctx, b, sized=rng.random() < 0.5, modifier=0)
     rid = ctx.uid("R")
     ctx.decls.append(A.packet(rid, b.fields))
+    if ctx.index % 2 == 1:
+        # the size-discriminated group hangs below an intermediate packet: its payload length, not
+        # the root's, decides (ancestors contribute fields of their own)
+        b2 = Body(ctx)
+        b2.random_bits(rng.randint(0, 1))
+        b2.align()
+        d2 = b2.scalar(8)
+        add_payload(ctx, b2, sized=rng.random() < 0.4, modifier=0)
+        if rng.random() < 0.3:
+            trailing_static(ctx, b2, 1)
+        mid = ctx.uid("R")
+        ctx.decls.append(A.packet(mid, b2.fields, parent_id=rid, constraints=[A.constraint(d, value=rng.choice([7, 77, 255]))]))
+        rid, d = mid, d2
     sizes = rng.sample([1, 2, 3, 4, 6, 8], 3)
     same = rng.random() < 0.5
     for j, n in enumerate(sizes):
@@ -883,6 +896,65 @@ def p_small(ctx):
     ctx.features.add("small")
 
 
+def p_struct_users(ctx):
+    """derived structs and structs with a payload used as *types*: typedef field, array element
+    (count- and size-delimited, padded), optional field, inside a sized parent payload. Their size is
+    the whole chain's (ancestor fields + own fields + payload), which the tests never ask for."""
+    rng = ctx.rng
+    k = ctx.fid()
+    wk = rng.choice([8, 8, 16])
+    root_fields = [A.scalar(k, wk)]
+    if rng.random() < 0.5:
+        root_fields.append(A.scalar(ctx.fid(), rng.choice([8, 16, 24])))
+    sized_root = rng.random() < 0.3
+    if sized_root:
+        root_fields.append(A.size_f("_payload_", 8))
+    root_fields.append(A.payload())
+    if rng.random() < 0.3 and not sized_root:
+        root_fields.append(A.scalar(ctx.fid(), 8))
+    a = ctx.uid("SA")
+    ctx.decls.append(A.struct(a, root_fields))
+    # static leaf, static grandchild through an intermediate with a payload of its own
+    leaf = ctx.uid("SB")
+    ctx.decls.append(A.struct(leaf, [A.scalar(ctx.fid(), rng.choice([8, 16, 32]))], parent_id=a,
+                              constraints=[A.constraint(k, value=1)]))
+    midc = ctx.uid("SC")
+    ctx.decls.append(A.struct(midc, [A.scalar(ctx.fid(), 8), A.payload()], parent_id=a,
+                              constraints=[A.constraint(k, value=2)]))
+    gleaf = ctx.uid("SD")
+    ctx.decls.append(A.struct(gleaf, [A.scalar(ctx.fid(), rng.choice([8, 24]))], parent_id=midc))
+    ctx.structs[leaf] = "static"
+    ctx.structs[gleaf] = "static"
+    users = []
+    for t in (leaf, gleaf):
+        users.append([A.scalar(ctx.fid(), 8), A.typedef(ctx.fid(), t), A.scalar(ctx.fid(), 8)])
+        aid = ctx.fid()
+        users.append([A.size_f(aid, 8), A.array(aid, type_id=t)])
+        aid = ctx.fid()
+        users.append([A.count_f(aid, 4), A.reserved(4), A.array(aid, type_id=t), A.padding(rng.choice([24, 40]))])
+        users.append([A.array(ctx.fid(), type_id=t, size=rng.choice([1, 2, 3]))])
+        fl = ctx.fid()
+        users.append([A.scalar(fl, 1), A.reserved(7), A.typedef(ctx.fid(), t, cond=A.constraint(fl, value=1)),
+                      A.scalar(ctx.fid(), 16)])
+    if not sized_root:
+        # the parent struct itself as a (greedy) last field
+        users.append([A.scalar(ctx.fid(), 8), A.typedef(ctx.fid(), a)])
+    rng.shuffle(users)
+    for flds in users[:rng.randint(5, 8)]:
+        ctx.decls.append(A.packet(ctx.uid("P"), flds))
+    # a struct-typed field inside a child whose parent's payload is sized: the field's length feeds the
+    # enclosing size field
+    pk = ctx.fid()
+    rp = ctx.uid("R")
+    ctx.decls.append(A.packet(rp, [A.scalar(pk, 8), A.size_f("_payload_", 8), A.payload()]))
+    ctx.decls.append(A.packet(ctx.uid("C"), [A.typedef(ctx.fid(), rng.choice([leaf, gleaf])), A.scalar(ctx.fid(), 8)],
+                              parent_id=rp, constraints=[A.constraint(pk, value=5)]))
+    ctx.features.add("struct_inherit")
+    ctx.features.add("inherit")
+    ctx.features.add("padding")
+    ctx.features.add("optional")
+
+
 def p_structs(ctx):
     rng = ctx.rng
     for _ in range(rng.randint(3, 5)):
@@ -896,6 +968,7 @@ def p_structs(ctx):
         ctx.decls.append(A.packet(ctx.uid("P"), b.fields))
     if rng.random() < 0.7:
         p_inherit(ctx, struct_tree=True)
+    p_struct_users(ctx)
 
 
 def p_hostile(ctx):
@@ -983,7 +1056,7 @@ def p_matrix(ctx):
 
 PROFILE_FN = {
     "bitfield": p_bitfield, "array": p_array, "payload": p_payload, "optional": p_optional,
-    "inherit": lambda c: (p_inherit(c), p_size_children(c) if c.rng.random() < 0.6 else None),
+    "inherit": lambda c: (p_inherit(c), p_size_children(c)),
     "enum": p_enum, "groups": p_groups, "small": p_small, "mix": p_mix, "structs": p_structs,
     "hostile": p_hostile, "matrix": p_matrix,
 }
